@@ -10,3 +10,5 @@ import QlibcModel.Props.C17
 #print axioms Qlibc.Props.C17Parsers.aconf_parse_total
 #print axioms Qlibc.Props.C17Parsers.iniExpand_terminates
 #print axioms Qlibc.Props.C17Parsers.iniParse_total
+#print axioms Qlibc.Props.C17Parsers.ini_include_consts
+#print axioms Qlibc.Props.C17Parsers.iniParseFile_total
